@@ -426,7 +426,7 @@ def l1d_worker(case):
 
 
 def run_l1d(rep, tier, r, exe):
-    n = 70 if tier == "quick" else 1500
+    n = 120 if tier == "quick" else 1500
     cases = path_corpus() + [CP.gen_path_case(r) for _ in range(n)]
     if tier == "quick":
         reals = [l1d_worker(c) for c in cases]
@@ -452,8 +452,12 @@ def run_l1d(rep, tier, r, exe):
             rep.count("l1d_load_result", {0: "ZERO", 1: "stored value", 2: "Select(array, key)", 3: "initial scalar"}.get(rr[0], "other"))
         rep.count("l1d_undecided_store_before_load", str(undecided))
         for f in x["spec_fails"][:1]:
-            report(rep, f"SLOAD on the real Exec returns a term whose value differs from the last write (layout={c['layout']}, transient={c.get('transient')}): ops {c['ops']} under v={f.get('env')}: halmos {f.get('halmos')} vs EVM {f.get('flat')} (initial arrays: {f.get('initial_arrays')}) {f.get('error', '')}",
-                   case={"path": c, **f}, sigs=known_sigs(set(), c["layout"]))
+            if "error" in f:
+                what = f"the terms SLOAD returns on the real Exec are not determined by its path (layout={c['layout']}, symbolic={c['sym']}, transient={c.get('transient')}): ops {c['ops']} under v={f.get('env')}: {f['error']}"
+            else:
+                what = (f"SLOAD on the real Exec returns a term whose value differs from the last write (layout={c['layout']}, symbolic={c['sym']}, transient={c.get('transient')}): "
+                        f"ops {c['ops']} under v={f.get('env')}: halmos {f.get('halmos')} vs EVM {f.get('flat')} (initial arrays: {f.get('initial_arrays')})")
+            report(rep, what, case={"path": c, **f}, sigs=known_sigs(set(), c["layout"]))
         if mo is None:
             continue
         res, path = CP.parse_model_pathrun(mo)
